@@ -48,6 +48,35 @@ func newEng() *eng.Eng {
 		"CREATE TABLE lg (a INT)",
 		"CREATE TRIGGER tr1 BEFORE INSERT ON trg FOR EACH ROW INSERT INTO lg VALUES (NEW.a)",
 		"CREATE USER tester@localhost",
+		// tables that carry triggers (the analyzed root of DML on them is a TriggerExecutor / the DML
+		// node wraps one): ta = AFTER triggers whose body writes nothing, tb = BEFORE triggers that only
+		// touch NEW / a user variable, tw = AFTER triggers that write to another table, tc = two chained
+		// AFTER INSERT triggers with harmless bodies, tm = harmless BEFORE + harmless AFTER
+		"CREATE TABLE ta (a INT PRIMARY KEY, b INT)",
+		"INSERT INTO ta VALUES (1,10),(2,20),(3,30)",
+		"CREATE TRIGGER ta_ai AFTER INSERT ON ta FOR EACH ROW SET @last = NEW.a",
+		"CREATE TRIGGER ta_au AFTER UPDATE ON ta FOR EACH ROW SET @last = OLD.a + NEW.b",
+		"CREATE TRIGGER ta_ad AFTER DELETE ON ta FOR EACH ROW SET @last = OLD.a",
+		"CREATE TABLE tb (a INT PRIMARY KEY, b INT)",
+		"INSERT INTO tb VALUES (1,10),(2,20),(3,30)",
+		"CREATE TRIGGER tb_bi BEFORE INSERT ON tb FOR EACH ROW SET NEW.b = NEW.b + 1",
+		"CREATE TRIGGER tb_bu BEFORE UPDATE ON tb FOR EACH ROW SET NEW.b = OLD.b + 1",
+		"CREATE TRIGGER tb_bd BEFORE DELETE ON tb FOR EACH ROW SET @last = OLD.a",
+		"CREATE TABLE tw (a INT PRIMARY KEY, b INT)",
+		"INSERT INTO tw VALUES (1,10),(2,20),(3,30)",
+		"CREATE TRIGGER tw_ai AFTER INSERT ON tw FOR EACH ROW INSERT INTO lg VALUES (NEW.a)",
+		"CREATE TRIGGER tw_au AFTER UPDATE ON tw FOR EACH ROW INSERT INTO lg VALUES (NEW.a)",
+		"CREATE TRIGGER tw_ad AFTER DELETE ON tw FOR EACH ROW DELETE FROM lg WHERE a = OLD.a",
+		"CREATE TABLE tc (a INT PRIMARY KEY, b INT)",
+		"INSERT INTO tc VALUES (1,10)",
+		"CREATE TRIGGER tc_ai1 AFTER INSERT ON tc FOR EACH ROW SET @c1 = NEW.a",
+		"CREATE TRIGGER tc_ai2 AFTER INSERT ON tc FOR EACH ROW BEGIN IF NEW.a < 0 THEN SIGNAL SQLSTATE '45000' SET MESSAGE_TEXT = 'neg'; END IF; SET @c2 = NEW.b; END",
+		"CREATE TABLE tm (a INT PRIMARY KEY, b INT)",
+		"INSERT INTO tm VALUES (1,10),(2,20)",
+		"CREATE TRIGGER tm_bi BEFORE INSERT ON tm FOR EACH ROW SET NEW.b = 7",
+		"CREATE TRIGGER tm_ai AFTER INSERT ON tm FOR EACH ROW SET @m = NEW.b",
+		"CREATE TRIGGER tm_bu BEFORE UPDATE ON tm FOR EACH ROW SET NEW.b = 7",
+		"CREATE TRIGGER tm_au AFTER UPDATE ON tm FOR EACH ROW SET @m = NEW.b",
 	)
 	sch := sql.NewPrimaryKeySchema(sql.Schema{{Name: "a", Type: types.Int64, Source: "rt", PrimaryKey: true}, {Name: "b", Type: types.Int64, Source: "rt", Nullable: true}})
 	tbl := memory.NewTable(ctx, rod.HistoryDatabase.Database, "rt", sch, nil)
@@ -437,6 +466,30 @@ var catalogue = []stmt{
 	{"REPLACE INTO t VALUES (1,11)", "W", "dml"},
 	{"INSERT INTO chi VALUES (2,2)", "W", "dml"},
 	{"INSERT INTO trg VALUES (1)", "W", "dml"},
+	// DML on tables with triggers: the write must be seen through the trigger executor
+	{"INSERT INTO ta VALUES (4,40)", "W", "dml"},
+	{"INSERT INTO ta SELECT a+10, b FROM t", "W", "dml"},
+	{"REPLACE INTO ta VALUES (3,0)", "W", "dml"},
+	{"INSERT INTO ta VALUES (1,1) ON DUPLICATE KEY UPDATE b = 99", "W", "dml"},
+	{"UPDATE ta SET b = 0 WHERE a = 1", "W", "dml"},
+	{"UPDATE ta SET b = b + 1", "W", "dml"},
+	{"DELETE FROM ta WHERE a = 2", "W", "dml"},
+	{"DELETE FROM ta", "W", "dml"},
+	{"INSERT INTO tb VALUES (4,40)", "W", "dml"},
+	{"REPLACE INTO tb VALUES (3,0)", "W", "dml"},
+	{"UPDATE tb SET b = 0 WHERE a = 1", "W", "dml"},
+	{"DELETE FROM tb WHERE a = 2", "W", "dml"},
+	{"DELETE FROM tb", "W", "dml"},
+	{"INSERT INTO tw VALUES (4,40)", "W", "dml"},
+	{"REPLACE INTO tw VALUES (3,0)", "W", "dml"},
+	{"UPDATE tw SET b = 0 WHERE a = 1", "W", "dml"},
+	{"DELETE FROM tw WHERE a = 2", "W", "dml"},
+	{"INSERT INTO tc VALUES (2,20)", "W", "dml"},
+	{"INSERT INTO tm VALUES (3,30)", "W", "dml"},
+	{"UPDATE tm SET b = 0 WHERE a = 1", "W", "dml"},
+	{"UPDATE ta JOIN u ON ta.a = u.a SET ta.b = u.b", "W", "dml"},
+	{"SELECT * FROM ta", "R", "other"},
+	{"SHOW CREATE TRIGGER ta_ai", "R", "other"},
 	{"UPDATE t SET b = 1", "W", "dml"},
 	{"UPDATE t SET b = b + 1 WHERE a = 1", "W", "dml"},
 	{"UPDATE t JOIN u ON t.a = u.a SET t.b = u.b", "W", "dml"},
@@ -541,7 +594,7 @@ func run(a hx.RunArgs) error {
 	defer out.Close()
 	out.Rule = "ro/tx/db: synthetic plan trees built from zero values of every registered node kind (truth tables of every kind's consulted fields with read-only / writing / nil children, then random trees up to depth 6 with resolved tables of 3 table classes x 3 database classes); " +
 		"observed: plan.IsReadOnly + Engine.readOnlyCheck under the 4 (ReadOnly, IsServerLocked) settings; validateReadOnlyTransaction under tx in {none, rw, ro} x EnforceReadOnly; validateReadOnlyDatabase x EnforceReadOnly. " +
-		"sql: a catalogue of statements of every kind, each on a fresh engine, under engine read-only and server-locked (outcome, state digest of data+schema+accounts before/after, result vs. the read-write twin), " +
+		"sql: a catalogue of statements of every kind (incl. DML on tables carrying harmless AFTER triggers, BEFORE triggers, AFTER triggers that write elsewhere, chained and mixed triggers: the analyzed root is then a TriggerExecutor or wraps one), each on a fresh engine, under engine read-only and server-locked (outcome, state digest of data+schema+accounts before/after, result vs. the read-write twin), " +
 		"START TRANSACTION READ ONLY, and against a read-only database. A case is non-trivial when the tree contains a writing kind or a resolved table in a read-only database / the statement is labelled W"
 	r := hx.NewRand(a.Seed)
 	t0 := time.Now()
